@@ -79,9 +79,15 @@ def render(t):
     return repr(t)
 
 
+def _rooted_in_sym(t):
+    while isinstance(t, tuple) and t and t[0] == "proj":
+        t = t[1]
+    return isinstance(t, tuple) and t and t[0] == "sym"
+
+
 class Config:
     def __init__(self, db, entry, inline_prefixes=(), sinks=(), fresh_calls=(), recurse_to=(), max_depth=8,
-                 drop_fields=("span", "node_id", "offset_comment"), effect_calls=()):
+                 drop_fields=("span", "node_id", "offset_comment"), effect_calls=(), inline_exact=(), error_paths=False):
         self.db = db
         self.entry = entry
         self.inline_prefixes = tuple(inline_prefixes)
@@ -91,6 +97,8 @@ class Config:
         self.max_depth = max_depth
         self.drop_fields = set(drop_fields)
         self.effect_calls = tuple(effect_calls)  # callee suffixes recorded as ("effect", name, args) events
+        self.inline_exact = tuple(inline_exact)  # callee ids (short or full) that are inlined
+        self.error_paths = error_paths           # also follow the error exits of `?`
 
 
 class Evaluator:
@@ -498,9 +506,10 @@ class Evaluator:
                 l = l["e"]
             if l.get("k") == "Path" and l.get("rk") == "Local":
                 env = dict(s.env)
-                if l is not n["l"] and env.get(l["p"], ("sym", l["p"]))[0] == "sym":
-                    # `*param = v`: a store through a reference parameter is an effect
-                    s = self.emit(s, ("store", "*" + l["p"], v))
+                tgt = env.get(l["p"], ("sym", l["p"]))
+                if l is not n["l"] and _rooted_in_sym(tgt):
+                    # `*param = v` / `*param.field = v`: a store through a reference parameter is an effect
+                    s = self.emit(s, ("store", "*" + render(tgt), v))
                 env[l["p"]] = v
                 s = s._replace(env=env)
             elif l.get("k") == "Field" and self._root_local(l) is not None:
@@ -615,6 +624,20 @@ class Evaluator:
     def ev_Match(self, n, st, depth):
         if n.get("src") == "ForLoopDesugar":
             return self.for_loop(n, st, depth)
+        if (n.get("src") or "").startswith("TryDesugar"):
+            # `expr?`: the error path leaves the function (flow "error"); the success path continues with the payload
+            inner = n["s"]["a"][0] if n["s"].get("k") == "Call" and n["s"].get("a") else n["s"]
+            out = []
+            for s, v in self.ev(inner, st, depth):
+                if s.flow:
+                    out.append((s, ("lit", "!")))
+                    continue
+                out.append((s, ("app", "?", (v,))))
+                if self.cfg.error_paths:
+                    se = self.with_cond(s, "fails(%s)" % render(v), True)
+                    if se is not None:
+                        out.append((se._replace(flow="error"), ("lit", "!")))
+            return out
         x = n.get("x", "")
         out = []
         for s, v in self.ev(n["s"], st, depth):
@@ -792,7 +815,7 @@ class Evaluator:
             if a[0] == "some":
                 return [(st, a)]
         fn = self.db.fns.get(f)
-        if fn is not None and depth < self.cfg.max_depth and any(f.startswith(p) or sf.startswith(p) for p in self.cfg.inline_prefixes):
+        if fn is not None and depth < self.cfg.max_depth and (f in self.cfg.inline_exact or sf in self.cfg.inline_exact or any(f.startswith(p) or sf.startswith(p) for p in self.cfg.inline_prefixes)):
             env = {}
             for i, p in enumerate(fn.d.get("hparams") or []):
                 if i < len(vs):
@@ -805,6 +828,9 @@ class Evaluator:
                 out.append((s2._replace(env=st.env, flow=flow, ret=None), val))
             return out
         return [(st, ("app", sf, tuple(vs)))]
+
+    def ev_ConstBlock(self, n, st, depth):
+        return [(st, ("app", "const-block", ()))]
 
 
 # ---------------------------------------------------------------------- canonical form
@@ -860,7 +886,7 @@ def _rows(paths):
     rows = []
     doms = {}
     for conds, events, flow in paths:
-        if flow == "diverge":
+        if flow in ("diverge", "error"):
             continue
         mp = {}
         evs = tuple(render_event(_renumber(e, mp)) for e in events)
